@@ -52,6 +52,9 @@ fn floor_to(x: Decimal, div: u8) -> Decimal {
 pub struct Env {
     pub ledger: DefaultLedgerSimulator,
     pub users: Vec<ComponentAddress>,
+    /// resources already created, per divisibility (a pool takes the first, second.. of its divisibility);
+    /// balances the users hold from earlier cases are part of the next case's recorded initial state
+    res_cache: std::collections::BTreeMap<u8, Vec<ResourceAddress>>,
 }
 
 pub struct Pool {
@@ -113,15 +116,22 @@ impl Env {
     pub fn new() -> Self {
         let mut ledger = LedgerSimulatorBuilder::new().build();
         let users = (0..2).map(|_| ledger.new_account_advanced(OwnerRole::Fixed(rule!(allow_all)))).collect();
-        Env { ledger, users }
+        Env { ledger, users, res_cache: Default::default() }
     }
 
     fn new_pool(&mut self, kind: Kind, divs: &[u8]) -> Pool {
         let owner = self.users[0];
-        let res: Vec<ResourceAddress> = divs
-            .iter()
-            .map(|d| self.ledger.create_freely_mintable_and_burnable_fungible_resource(OwnerRole::None, None, *d, owner))
-            .collect();
+        let mut used: std::collections::BTreeMap<u8, usize> = Default::default();
+        let mut res: Vec<ResourceAddress> = vec![];
+        for d in divs.iter() {
+            let j = *used.get(d).unwrap_or(&0);
+            used.insert(*d, j + 1);
+            if self.res_cache.get(d).map(|v| v.len()).unwrap_or(0) <= j {
+                let r = self.ledger.create_freely_mintable_and_burnable_fungible_resource(OwnerRole::None, None, *d, owner);
+                self.res_cache.entry(*d).or_default().push(r);
+            }
+            res.push(self.res_cache[d][j]);
+        }
         let b = ManifestBuilder::new().lock_fee_from_faucet();
         let b = match kind {
             Kind::One => b.call_function(
